@@ -443,6 +443,23 @@ def run_smooth(ctx, spec):
                     {'n': n, 'p': p})
     else:
       ctx.count('hit:smooth/cofactor')
+  # exactly on the documented threshold: gcd(n - 1, product) == 2^60
+  for j in range(2 if ctx.tier == 'quick' else 6):
+    if not ctx.want('t%d' % j) or ctx.spent():
+      continue
+    n, p, qq = rsagen.shared_smooth_boundary(rng, 1024)
+    flagged, facs = _run(ctx, chk, n)
+    ctx.count('evaluations')
+    ctx.distinct(n, 'threshold')
+    ctx.count('tried:smooth/threshold')
+    if not flagged or not {p, qq} <= facs:
+      ctx.violation('shared-smooth-not-flagged/at-threshold',
+                    'p-1 | default product and the smooth part shared with '
+                    'n-1 is exactly 2^60 ("at least 2^60"): flagged=%s, '
+                    'factored=%s' % (flagged, {p, qq} <= facs),
+                    {'n': n, 'p': p})
+    else:
+      ctx.count('hit:smooth/threshold')
   # user-supplied bounds: a key whose p-1 is a squarefree product of primes
   # below the bound divides every bound-powersmooth product
   for bound, inst in sorted((k, v) for k, v in extra.items()
@@ -529,7 +546,7 @@ def finalize(agg, tier):
                  'data': {'miss': c['miss:' + fam], 'n': c['tried:' + fam]}})
   for k in ('hit:smooth/one', 'hit:smooth/both', 'hit:smooth/one/maxpow',
             'hit:smooth/both/maxpow', 'hit:smooth/user-bound',
-            'hit:smooth/cofactor',
+            'hit:smooth/cofactor', 'hit:smooth/threshold',
             'pollard_product_observed', 'decoy_instances_built',
             'lhw_corner_moduli', 'word_corner_cells', 'instance_history:1',
             'instance_history:2', 'instance_history:3'):
